@@ -117,3 +117,143 @@ Proof.
   { apply existsb_exists. exists (r, f). split; [|assumption]. apply pairs_of_In. auto. }
   rewrite E. reflexivity.
 Qed.
+
+(* ------------------------------------------------------------------------------------------------------------ *)
+(* independence from the order of enumeration and from order / duplication of the directory arguments           *)
+
+From PV Require Import Namespace.SortProofs.
+
+Lemma existsb_perm : forall {A} (p : A -> bool) l1 l2, Permutation l1 l2 -> existsb p l1 = existsb p l2.
+Proof.
+  intros A p l1 l2 P. induction P; simpl.
+  - reflexivity.
+  - rewrite IHP. reflexivity.
+  - destruct (p x), (p y); reflexivity.
+  - congruence.
+Qed.
+
+Lemma filter_perm : forall {A} (p : A -> bool) l1 l2, Permutation l1 l2 -> Permutation (filter p l1) (filter p l2).
+Proof.
+  intros A p l1 l2 P. induction P; simpl.
+  - apply perm_nil.
+  - destruct (p x); [apply perm_skip|]; assumption.
+  - destruct (p x), (p y); try apply Permutation_refl. apply perm_swap.
+  - eapply Permutation_trans; eassumption.
+Qed.
+
+Lemma flat_map_perm_pointwise : forall {A B} (f g : A -> list B) l,
+  (forall x, In x l -> Permutation (f x) (g x)) -> Permutation (flat_map f l) (flat_map g l).
+Proof.
+  induction l as [|x l IH]; intros H; simpl; [apply perm_nil|].
+  apply Permutation_app; [apply H; left; reflexivity|apply IH; intros; apply H; right; assumption].
+Qed.
+
+Lemma pairs_of_perm_files : forall roots f1 f2, Permutation f1 f2 -> Permutation (pairs_of roots f1) (pairs_of roots f2).
+Proof.
+  intros. unfold pairs_of. apply flat_map_perm_pointwise. intros r _. apply Permutation_map. apply filter_perm. assumption.
+Qed.
+
+Lemma pairs_of_perm_roots : forall r1 r2 files, Permutation r1 r2 -> Permutation (pairs_of r1 files) (pairs_of r2 files).
+Proof. intros. unfold pairs_of. apply Permutation_flat_map. assumption. Qed.
+
+Definition pair_meta (rf : dpath * fent) : meta := mk_meta (fst rf) (snd rf).
+
+(* no two definition files found under the listed directories encode the same full name and version *)
+Definition ukeys (roots : list dpath) (files : list fent) : Prop :=
+  NoDup (map (fun rf => mkey (pair_meta rf)) (pairs_of roots files)).
+
+Lemma listing_perm : forall r1 f1 r2 f2,
+  Permutation (pairs_of r1 f1) (pairs_of r2 f2) -> ukeys r1 f1 -> listing r1 f1 = listing r2 f2.
+Proof.
+  intros r1 f1 r2 f2 P U. unfold listing.
+  rewrite (existsb_perm _ _ _ P).
+  destruct (existsb (fun rf => fbad (snd rf)) (pairs_of r2 f2)); [reflexivity|].
+  f_equal. rewrite sort_metas_is. apply isort_perm_eq.
+  - apply Permutation_map. exact P.
+  - unfold ukeys in U. rewrite map_map. exact U.
+Qed.
+
+Lemma find_perm_unique : forall (l1 l2 : list fent) i, Permutation l1 l2 -> NoDup (map fid l1) ->
+  find (fun f => fid f =? i) l1 = find (fun f => fid f =? i) l2.
+Proof.
+  intros l1 l2 i P. induction P; intros N; simpl.
+  - reflexivity.
+  - simpl in N. inversion N; subst. rewrite IHP by assumption. reflexivity.
+  - simpl in N. inversion N as [|? ? H1 N1]; subst. inversion N1 as [|? ? H2 N2]; subst.
+    destruct (fid y =? i) eqn:E1, (fid x =? i) eqn:E2; try reflexivity.
+    apply Z.eqb_eq in E1, E2. exfalso. apply H1. left. congruence.
+  - rewrite IHP1 by assumption. apply IHP2. eapply Permutation_NoDup; [|exact N]. apply Permutation_map. assumption.
+Qed.
+
+Lemma targets_of_perm : forall f1 f2 roots ids, Permutation f1 f2 -> NoDup (map fid f1) ->
+  targets_of f1 roots ids = targets_of f2 roots ids.
+Proof.
+  intros f1 f2 roots ids P N. induction ids as [|i ids IH]; simpl; [reflexivity|].
+  rewrite (find_perm_unique f1 f2 i P N). rewrite IH. reflexivity.
+Qed.
+
+Lemma dedupe_dirs_NoDup : forall l, NoDup (dedupe_dirs l).
+Proof.
+  induction l as [|x l IH]; simpl; [constructor|]. constructor.
+  - intro H. apply filter_In in H. destruct H as [_ H]. rewrite dpath_eqb_refl in H. discriminate.
+  - apply NoDup_filter. assumption.
+Qed.
+
+Lemma dedupe_dirs_perm : forall l1 l2, (forall x, In x l1 <-> In x l2) -> Permutation (dedupe_dirs l1) (dedupe_dirs l2).
+Proof.
+  intros l1 l2 H. apply NoDup_Permutation; try apply dedupe_dirs_NoDup.
+  intro x. rewrite !dedupe_dirs_In. apply H.
+Qed.
+
+Section RunPerm.
+Variable txt : Z -> list item.
+
+(* C10_perm: the order in which the operating system / a Python set enumerates the files is irrelevant *)
+Lemma run_namespace_perm : forall f1 f2 root lookups allow,
+  Permutation f1 f2 -> ukeys [root] f1 -> ukeys (dedupe_dirs (lookups ++ [root])) f1 ->
+  run_namespace txt f1 root lookups allow = run_namespace txt f2 root lookups allow.
+Proof.
+  intros f1 f2 root lookups allow P U1 U2. unfold run_namespace.
+  rewrite (listing_perm [root] f1 [root] f2 (pairs_of_perm_files _ _ _ P) U1).
+  rewrite (listing_perm _ f1 _ f2 (pairs_of_perm_files _ _ _ P) U2). reflexivity.
+Qed.
+
+Lemma run_files_perm : forall f1 f2 ids roots lookups,
+  Permutation f1 f2 -> NoDup (map fid f1) -> (forall dirs, ukeys (dedupe_dirs dirs) f1) ->
+  run_files txt f1 ids roots lookups = run_files txt f2 ids roots lookups.
+Proof.
+  intros f1 f2 ids roots lookups P N U. unfold run_files.
+  rewrite (targets_of_perm f1 f2 roots ids P N).
+  destruct (targets_of f2 roots ids) as [[|p ps]|e]; try reflexivity.
+  rewrite (listing_perm _ f1 _ f2 (pairs_of_perm_files _ _ _ P) (U _)). reflexivity.
+Qed.
+
+(* C10_dir_args: order and duplication of the lookup directory arguments are irrelevant *)
+Lemma run_namespace_dir_args : forall files root lk1 lk2 allow,
+  (forall x, In x lk1 <-> In x lk2) -> ukeys (dedupe_dirs (lk1 ++ [root])) files ->
+  run_namespace txt files root lk1 allow = run_namespace txt files root lk2 allow.
+Proof.
+  intros files root lk1 lk2 allow H U. unfold run_namespace.
+  assert (Hs : forall x, In x (lk1 ++ [root]) <-> In x (lk2 ++ [root])).
+  { intro x. rewrite !in_app_iff, H. tauto. }
+  rewrite (dirs_rejected_ext allow (dedupe_dirs (lk1 ++ [root])) (dedupe_dirs (lk2 ++ [root]))).
+  2:{ intro x. rewrite !dedupe_dirs_In. apply Hs. }
+  rewrite (listing_perm (dedupe_dirs (lk1 ++ [root])) files (dedupe_dirs (lk2 ++ [root])) files); [reflexivity| |assumption].
+  apply pairs_of_perm_roots. apply dedupe_dirs_perm. exact Hs.
+Qed.
+
+Lemma run_files_dir_args : forall files ids roots lk1 lk2,
+  (forall x, In x lk1 <-> In x lk2) -> (forall dirs, ukeys (dedupe_dirs dirs) files) ->
+  run_files txt files ids roots lk1 = run_files txt files ids roots lk2.
+Proof.
+  intros files ids roots lk1 lk2 H U. unfold run_files.
+  destruct (targets_of files roots ids) as [[|p ps]|e]; try reflexivity.
+  set (ps' := dedupe_files (p :: ps)).
+  assert (Hs : forall x, In x (lk1 ++ map fst ps' ++ roots) <-> In x (lk2 ++ map fst ps' ++ roots)).
+  { intro x. rewrite !in_app_iff, H. tauto. }
+  rewrite (dirs_rejected_ext true (dedupe_dirs (lk1 ++ map fst ps' ++ roots)) (dedupe_dirs (lk2 ++ map fst ps' ++ roots))).
+  2:{ intro x. rewrite !dedupe_dirs_In. apply Hs. }
+  rewrite (listing_perm (dedupe_dirs (lk1 ++ map fst ps' ++ roots)) files (dedupe_dirs (lk2 ++ map fst ps' ++ roots)) files); [reflexivity| |apply U].
+  apply pairs_of_perm_roots. apply dedupe_dirs_perm. exact Hs.
+Qed.
+End RunPerm.
